@@ -103,9 +103,12 @@ func (g *Gen) conditional() Step {
 			// two tokens in one conditional batch, each with its own index
 			id2 := id%3 + 1
 			sym := func() string { return g.pick([]string{"zero", "cur", "cur", "stale", "future"}) }
+			// (Name "deadlink": the member links a policy that does not exist - refused if it is written,
+			// of no consequence if its index does not match)
+			link := func() string { return g.pick([]string{"", "", "", "deadlink"}) }
 			return Step{Op: "acl.token.batch-cas", Ops: []Step{
-				{ID: TokenUUID(id), Text: SecretUUID(id), Idx: sym(), Text2: g.pick([]string{"a", "b", "c"})},
-				{ID: TokenUUID(id2), Text: SecretUUID(id2), Idx: sym(), Text2: g.pick([]string{"a", "b", "c"})}}}
+				{ID: TokenUUID(id), Text: SecretUUID(id), Idx: sym(), Text2: g.pick([]string{"a", "b", "c"}), Name: link()},
+				{ID: TokenUUID(id2), Text: SecretUUID(id2), Idx: sym(), Text2: g.pick([]string{"a", "b", "c"}), Name: link()}}}
 		}
 		return Step{Op: "acl.token.set", ID: TokenUUID(id), Text: SecretUUID(id), Idx: idx, Text2: g.pick([]string{"a", "b"})}
 	}
@@ -437,7 +440,20 @@ func (c *Cluster) judgeTokenBatch(i int, s Step, r *simkit.Run, mk func(int, Ste
 		return nil
 	}
 	idx := c.Log[len(c.Log)-1].Index
-	if _, refused := out.Resp.(error); refused {
+	if err, refused := out.Resp.(error); refused {
+		// a member whose index does not match is not written, so nothing about it can refuse the batch
+		if strings.Contains(err.Error(), PolicyUUID(99)) {
+			blame := false
+			for k, o := range s.Ops {
+				if o.Name == "deadlink" && exps[k].matched {
+					blame = true
+				}
+			}
+			if !blame {
+				return mk(i, s, "cas-dishonest", "matched-write-is-applied", fmt.Sprintf("the batch was refused (%v) although the only member with that link has an index that does not match; the members that match were not written", err))
+			}
+			r.Hit("probe.cas.acl.token.batch.refused-for-matched-dead-link")
+		}
 		// the batch as a whole was refused (a token in it is invalid): then nothing of it is written
 		for k := range exps {
 			exps[k].matched = false
